@@ -21,6 +21,8 @@ TEMPLATES = {
     'TA': {'N': 7, 'par': [-1, 0, 1, 1, 3, 3, 0], 'kind': [O, C, B, O, B, B, B]},
     # root||{R1{X, P{A,H}}, R2}: a transition to a history state next to a parallel transition
     'TB': {'N': 7, 'par': [-1, 0, 1, 1, 3, 3, 0], 'kind': [O, C, B, C, B, S, B]},
+    # root{Z, P{Q||{r1,r2}, H*}}: deep history over orthogonal content (restored regions must come in name order)
+    'TD2': {'N': 7, 'par': [-1, 0, 0, 2, 3, 3, 2], 'kind': [C, B, C, O, B, B, D]},
     # root{A, P||{R1{a1,a2}, R2{b1,b2}}}: nested exits of orthogonal content
     'TC': {'N': 9, 'par': [-1, 0, 0, 2, 3, 3, 2, 6, 6], 'kind': [C, B, O, C, B, B, C, B, B]},
 }
@@ -31,6 +33,8 @@ LEVELS = {
         {'name': 'L3-N4-M2-K1', 'N': 4, 'M': 2, 'K': 1, 'namings': ['id'], 'send': 0, 'budget_s': 150},
         {'name': 'L4-TATB-M2-K1', 'templates': ['TA', 'TB'], 'M': 2, 'K': 1, 'nevents': 1, 'namings': ['rev'],
          'send': 2, 'budget_s': 90},
+        {'name': 'L5-TD2-M2-K3', 'templates': ['TD2'], 'M': 2, 'K': 3, 'nevents': 1, 'namings': ['rev', 'mix'], 'send': 0,
+         'hist_target': 1, 'evented': 1, 'budget_s': 60},
     ],
     'thorough': [
         {'name': 'L1-N3-M3-K2', 'N': 3, 'M': 3, 'K': 2, 'namings': ['id', 'rev', 'mix'], 'send': 1, 'budget_s': 400},
@@ -56,7 +60,8 @@ def shards(level):
         out = []
         for name in level['templates']:
             out.extend(dict(sh, template=name) for sh in
-                       cg.split_shards([dict(TEMPLATES[name])], level['M'], nevents=level.get('nevents', 2)))
+                       cg.split_shards([dict(TEMPLATES[name])], level['M'], nevents=level.get('nevents', 2),
+                                       evented_only=bool(level.get('evented'))))
         return out
     return cg.split_shards(cg.skeletons(level['N'], ALL), level['M'])
 
@@ -66,7 +71,8 @@ def expand(job, level):
         yield job['chart']
         return
     yield from cg.charts(job['skel'], level['M'], nevents=level.get('nevents', 2), targets='free',
-                         fix=job.get('fix'))
+                         fix=job.get('fix'), hist_target=bool(level.get('hist_target')),
+                         evented_only=bool(level.get('evented')))
 
 
 def canary_job():
@@ -207,7 +213,7 @@ def harness(g, chart, level, canary=False):
     g.prove(st is not None, 'first_step_initialises', info)
     conf = check_macro(g, inst, cm, st, log, set(), info, canary)
     for k in range(level['K']):
-        ev = 'ab'[g.choice('ev%d' % k, 2)]
+        ev = 'a' if level.get('nevents') == 1 else 'ab'[g.choice('ev%d' % k, 2)]
         hist.append(ev)
         st, err, log = inst.step(k, ev)
         cur['st'] = st
